@@ -91,6 +91,7 @@ def run(ctx):
     ctx.sample({"row": list(specs[900][:3]), "observed": elem.short(out[(specs[900][0], tuple(specs[900][1]), specs[900][2])])})
 
     numpy_scalars(ctx)
+    shape_independence(ctx)
     # static theorems
     f = ctx.work / "C03_static.v"
     f.write_text((core.COQ / "Props" / "C03.v").read_text())
@@ -170,6 +171,47 @@ def numpy_scalars(ctx):
     coqcorr.run(ctx, "NumpyScalars.v", f"T-exh (in Coq): NumPy scalar operands promote like 0-d arrays of their dtype — {len(lines)} calls (23 binary functions x {len(dts)} dtypes x {len(nps)} NumPy scalar types x 2 orders; thorough: all 24 x 9) against the array-array rows of the regenerated table",
                 header, "nprow", lines, "np_ok", on_bad, timeout=1200)
     ctx.coverage["numpy_scalar_calls"] = len(lines)
+
+
+FN_SHAPES = [[], [1], [0], [3], [2, 3], [1, 1]]
+FN_FUNCS = ["sum", "prod", "mean", "var", "std", "min", "max", "all", "any", "cumulative_sum", "argmax", "argmin", "sort", "argsort", "reshape", "flip",
+            "expand_dims", "clip", "where_self", "copy", "sum_axis_last", "sum_keepdims", "mean_axis0", "max_keepdims"]
+
+
+def shape_independence(ctx):
+    """'The dtype of every result is a function of the operand dtypes only ... forall shapes': non-element-wise
+    functions x 24 dtypes x 6 shapes (ranks 0-2, extents 0/1/3) x {placeholder, data-holding}: whenever the call returns,
+    the result dtype is the same for every shape and for both kinds of array (compared inside Coq)."""
+    cases = [{"id": f"fnd-{f}", "kind": "fn_dtypes", "funcs": [f], "dtypes": ALL, "shapes": FN_SHAPES} for f in FN_FUNCS]
+    res = core.run_cases("harness.h_dtypes", cases, workers=14, per_case_timeout=900)
+    rows, lines = [], []
+    for c in cases:
+        r = res.get(c["id"]) or {}
+        if "rows" not in r:
+            ctx.broken_machinery.append(f"function dtype enumeration failed: {c['id']}: {str(r)[:200]}")
+            return
+        for f, d, outs in r["rows"]:
+            rows.append((f, d, outs))
+            obs = "; ".join("None" if o.startswith(("!", "?")) else f"Some {cd(o)}" for o in outs)
+            lines.append(f'  ("{f}", {cd(d)}, [{obs}])')
+            ctx.count(("fnd", f, d), nontrivial=True)
+            ctx.evaluations += len(outs)
+    header = ("From Coq Require Import List Bool String.\nFrom ND Require Import Base.Dtype Base.DtypeFacts Ndx.ReduceCorr.\nImport ListNotations.\nOpen Scope string_scope.\n"
+              "Definition fnrow := (string * dtype * list (option dtype))%type.\n"
+              "Fixpoint somes (l : list (option dtype)) : list dtype := match l with [] => [] | Some d :: r => d :: somes r | None :: r => somes r end.\n"
+              "Definition all_equal (l : list dtype) : bool := match l with [] => true | d :: r => forallb (dtype_eqb d) r end.\n"
+              "Definition fn_ok (r : fnrow) : bool := let '(_, _, outs) := r in all_equal (somes outs).\n")
+
+    def on_bad(i):
+        f, d, outs = rows[i]
+        seen = sorted({o for o in outs if not o.startswith(("!", "?"))})
+        labels = [f"{'x'.join(map(str, s_)) or 'scalar'}/{m}" for s_ in FN_SHAPES for m in ("lazy", "eager")]
+        detail = {lab: o.split("|")[0] for lab, o in zip(labels, outs)}
+        return ctx.finding({"site": "function-dtype", "func": f, "dtype": d, "law": "dtype-independent-of-shape"},
+                           f"{f} on {d}: the result dtype depends on the shape / on holding data: {seen}", {"function": f, "dtype": d, "result_dtype_by_shape": detail})
+    coqcorr.run(ctx, "ShapeIndep.v", f"T-exh (in Coq): result dtype of {len(FN_FUNCS)} non-element-wise calls is the same for every shape (ranks 0-2, extents 0/1/3) and for placeholder / data-holding operands — {len(lines)} (function, dtype) rows",
+                header, "fnrow", lines, "fn_ok", on_bad)
+    ctx.coverage["function_dtype_rows"] = len(lines)
 
 
 def search_result_type(ctx, rows, idx):
